@@ -122,7 +122,8 @@ def run_probe(case, root, body, timeout=20):
     except subprocess.TimeoutExpired:
         return {'text': text, 'args': args[1:], 'timeout': True}
     err = p.stderr.decode(errors='replace')
-    ev = [[l.split()[1], int(l.split()[2])] for l in err.splitlines() if l.startswith('JAQ_VERIF ')]
+    # the loader's steps (the binary may print other verification events, e.g. the compiler's call classification)
+    ev = [[l.split()[1], int(l.split()[2])] for l in err.splitlines() if l.startswith('JAQ_VERIF ') and l.split()[1] in ('Enter', 'Exit', 'Reuse', 'Cycle')]
     return {'text': text, 'args': args[1:], 'rc': p.returncode, 'out': p.stdout.decode(errors='replace'), 'ev': ev,
             'err': '\n'.join(l for l in err.splitlines() if not l.startswith('JAQ_VERIF '))[:400]}
 
